@@ -9,8 +9,8 @@ def design(name, n, conn, fail, kill, fix=(T, T, T), invs=SAFE + " CleanShutdown
     open(name + ".cfg", "w").write("SPECIFICATION Spec\n" + consts(n, conn, fail, kill, *fix) + "INVARIANTS " + invs + "\nCHECK_DEADLOCK FALSE\n")
 def tick(name, n, conn, fail, kill, fix=(F, F, F)):
     open(name + ".cfg", "w").write("SPECIFICATION TSpec\n" + consts(n, conn, fail, kill, *fix) + "INVARIANTS HealBound Conservation LiveBound\nCHECK_DEADLOCK FALSE\n")
-def sim(name, n, conn, fail, kill, depth, fix=(F, F, F)):
-    open(name + ".cfg", "w").write("INIT SimInit\nNEXT SimNext\n" + consts(n, conn, fail, kill, *fix) + "  Depth = %d\nCHECK_DEADLOCK FALSE\n" % depth)
+def sim(name, n, conn, fail, kill, depth, fix=(F, F, F), loop=F):
+    open(name + ".cfg", "w").write("INIT SimInit\nNEXT SimNext\n" + consts(n, conn, fail, kill, *fix) + "  Depth = %d\n  Loop = %s\nCHECK_DEADLOCK FALSE\n" % (depth, loop))
 # the tree as pinned: pool accounting holds, the shutdown clauses do not (finding 5)
 design("mp_cur2", 2, 4, 1, 2, (F, F, F), SAFE)
 design("mp_cur3", 3, 5, 1, 2, (F, F, F), SAFE)
@@ -33,3 +33,7 @@ sim("sim_n3", 3, 7, 2, 3, 26)
 # exhaustive enumeration (BFS over MuxPoolSim: the history is part of the state) of ALL eager behaviours of small pools
 sim("bfs_n1", 1, 2, 1, 1, 12)
 sim("bfs_n2", 2, 3, 1, 1, 16)
+# two real pools over loopback: kills and cancel only (BFS, all behaviours)
+sim("loop_n1", 1, 4, 0, 3, 5, loop=T)
+sim("loop_n2", 2, 5, 0, 3, 5, loop=T)
+sim("loop_n3", 3, 6, 0, 3, 5, loop=T)
